@@ -1,3 +1,137 @@
-//! C17 — not built yet.
-use crate::run::Run;
-pub fn run(_run: &Run) { eprintln!("C17: check not built yet"); std::process::exit(2); }
+//! C17 — bytes before the header do not change what is read.
+use crate::corpus::{digest, valid_files, Sample};
+use crate::doc::{root_kind, Cfg};
+use crate::panicmon::guard;
+use crate::par::par_for;
+use crate::rng::{fnv, Rng};
+use crate::run::{show, Run};
+use crate::tape::Src;
+use crate::with_file;
+use pdf::file::ScanItem;
+use pdf::object::{PlainRef, Resolve};
+use serde_json::json;
+
+/// everything observable that the statement mentions, as a list of (what, rendering)
+fn observe(bytes: &[u8], pw: &[u8], cfg: Cfg, with_scan: bool) -> Result<Vec<(String, String)>, String> {
+    let r = guard(|| -> Result<Vec<(String, String)>, String> { with_file!(bytes.to_vec(), cfg, pw, |f| {
+        let f = f.map_err(|e| format!("load: {}: {}", root_kind(&e), format!("{}", crate::doc::root_cause(&e)).lines().next().unwrap_or("").to_string()))?;
+        let res = f.resolver();
+        let mut out = Vec::new();
+        let t = &f.trailer;
+        out.push(("trailer".to_string(), format!("size={} prev={:?} root={} id={:?} info={:?} encrypt={}", t.size, t.prev_trailer_pos, t.root.get_ref().get_inner().id,
+            t.id.iter().map(|s| crate::run::hex(s.as_bytes())).collect::<Vec<_>>(), t.info_dict.as_ref().map(|i| format!("{:?}", i.title)), t.encrypt_dict.is_some())));
+        out.push(("version".into(), format!("{:?}", f.version().map_err(|e| root_kind(&e)))));
+        let size = t.size.max(0) as u64;
+        for n in 0..size.min(3000) + 2 {
+            let d = match res.resolve(PlainRef { id: n, gen: 0 }) { Ok(p) => digest(&p, &res), Err(e) => format!("Err({})", root_kind(&e)) };
+            out.push((format!("obj {}", n), d));
+        }
+        let np = f.num_pages();
+        out.push(("num_pages".into(), np.to_string()));
+        for i in 0..np.min(12) {
+            let d = match f.get_page(i) {
+                Err(e) => format!("Err({})", root_kind(&e)),
+                Ok(p) => {
+                    let ops = match &p.contents { None => "none".to_string(), Some(c) => match c.operations(&res) { Ok(ops) => format!("{} ops #{:016x}", ops.len(), fnv(format!("{:?}", ops).as_bytes())), Err(e) => format!("Err({})", root_kind(&e)) } };
+                    format!("media={:?} crop={:?} rotate={} ops={}", p.media_box().map_err(|e| root_kind(&e)), p.crop_box().map_err(|e| root_kind(&e)), p.rotate, ops)
+                }
+            };
+            out.push((format!("page {}", i), d));
+        }
+        if with_scan {
+            let mut items = Vec::new();
+            for (k, it) in f.scan().enumerate() {
+                if k > 5000 { break; }
+                match it {
+                    Ok(ScanItem::Object(r, p)) => items.push(format!("obj {} {}: {}", r.id, r.gen, digest(&p, &res))),
+                    Ok(ScanItem::Trailer(d)) => items.push(format!("trailer {}", digest(&pdf::primitive::Primitive::Dictionary(d), &res))),
+                    Err(e) => { items.push(format!("Err({})", root_kind(&e))); break; }
+                }
+            }
+            out.push(("scan".into(), format!("{} items #{:016x}", items.len(), fnv(items.join("\n").as_bytes()))));
+            out.push(("scan-first".into(), items.first().cloned().unwrap_or_default().chars().take(200).collect()));
+        }
+        Ok(out)
+    }) });
+    match r { Ok(x) => x, Err(p) => Err(format!("PANIC {}", p.signature())) }
+}
+
+fn make_prefix(kind: u64, len: usize, r: &mut Rng) -> Vec<u8> {
+    let mut v: Vec<u8> = match kind % 5 {
+        0 => vec![0u8; len],
+        1 => vec![0xffu8; len],
+        2 => r.bytes(len),
+        3 => { let t = b"startxref 0\n%%EOF\nxref\n0 1\ntrailer << /Size 1 >>\n1 0 obj << /A 1 >> endobj\n"; (0..len).map(|i| t[i % t.len()]).collect() }
+        _ => { let t = b"\r\n \t% junk mail header: From foo@bar\r\n"; (0..len).map(|i| t[i % t.len()]).collect() }
+    };
+    // must not contain the header marker
+    while let Some(p) = v.windows(5).position(|w| w == b"%PDF-") { v[p] = b'#'; }
+    v
+}
+
+fn generated(seed: u64, k: u64) -> Sample {
+    let mut s = Src::fresh(Rng::derive(seed, 1700, k));
+    let plan = crate::props::c02::gen_plan(&mut s, 8, 3);
+    let b = crate::props::c02::build(&plan);
+    Sample { name: format!("generated-history-{}", k), bytes: b.bytes, password: vec![] }
+}
+
+pub fn run(run: &Run) {
+    run.rule("every loadable corpus file and generated multi-section files (classic/stream xref, /Prev chains, object streams) x prefixes of length {0..16, 255, 256, 512, 1000, 1018, 1019} + random lengths x contents {zeros, 0xFF, random, PDF-token-like text, mail-header-like} never containing %PDF-; the prefixed file must load and give identical trailer, version, resolve(n) for all n (streams as dictionary + raw data), page boxes/ops and scan() items. distinct_nontrivial = distinct (file, prefix) pairs with prefix length > 0");
+    run.assume("baseline = the same file without prefix read by the same library build; files whose unprefixed baseline does not load are skipped and listed");
+    let mut samples = valid_files();
+    let ngen = run.n(12, 400);
+    for k in 0..ngen { samples.push(generated(run.seed, k)); }
+    let cfg = Cfg { cached: false, tolerant: false };
+    // baselines
+    let mut work: Vec<(usize, usize, u64)> = Vec::new(); // (sample, len, kind)
+    let fixed_lens: Vec<usize> = (1..=16).chain([255, 256, 512, 1000, 1018, 1019]).collect();
+    let mut r = Rng::derive(run.seed, 17, 0);
+    for (si, s) in samples.iter().enumerate() {
+        let big = s.bytes.len() > 60_000;
+        let lens: Vec<usize> = if big { vec![1, 7, 1019] } else if run.quick() { let mut v = fixed_lens.clone(); for _ in 0..3 { v.push(1 + r.below(1019) as usize); } v } else { let mut v = fixed_lens.clone(); for _ in 0..30 { v.push(1 + r.below(1019) as usize); } v };
+        for (j, l) in lens.iter().enumerate() {
+            let kinds: Vec<u64> = if run.quick() && !(j % 4 == 0) { vec![(si + j) as u64 % 5] } else { vec![0, 1, 2, 3, 4] };
+            for k in kinds { work.push((si, *l, k)); }
+        }
+    }
+    let baselines: Vec<Result<Vec<(String, String)>, String>> = {
+        let slots: Vec<std::sync::Mutex<Option<Result<Vec<(String, String)>, String>>>> = samples.iter().map(|_| std::sync::Mutex::new(None)).collect();
+        par_for(samples.len() as u64, |i| { let s = &samples[i as usize]; *slots[i as usize].lock().unwrap() = Some(observe(&s.bytes, &s.password, cfg, true)); });
+        slots.into_iter().map(|m| m.into_inner().unwrap().unwrap()).collect()
+    };
+    for (s, b) in samples.iter().zip(&baselines) { if let Err(e) = b { run.count("baseline_not_loadable"); run.extra(&format!("skipped:{}", s.name), json!(e)); } else { run.count("baseline_loadable"); } }
+    par_for(work.len() as u64, |wi| {
+        let (si, len, kind) = work[wi as usize];
+        let s = &samples[si];
+        // domain: the header must stay within the first kilobyte (some corpus files already have junk before it)
+        let own = s.bytes.windows(5).position(|w| w == b"%PDF-").unwrap_or(0);
+        let len = len.min(1019usize.saturating_sub(own));
+        if len == 0 { return; }
+        let Ok(base) = &baselines[si] else { return };
+        let mut r = Rng::derive(run.seed, 171, wi);
+        let prefix = make_prefix(kind, len, &mut r);
+        let mut bytes = prefix.clone();
+        bytes.extend_from_slice(&s.bytes);
+        run.eval();
+        run.nontrivial(fnv(&prefix) ^ fnv(s.name.as_bytes()));
+        run.count(&format!("prefix_kind:{}", kind));
+        if wi < 4 { run.sample(json!({"file": s.name, "prefix_len": len, "prefix": show(&prefix[..prefix.len().min(40)])})); }
+        let family = if s.name.starts_with("generated") { "generated" } else { s.name.as_str() };
+        let wit = || json!({"file": s.name, "prefix_len": len, "prefix_kind": kind, "prefix_hex": crate::run::hex(&prefix[..prefix.len().min(64)])});
+        match observe(&bytes, &s.password, cfg, true) {
+            Err(e) if e.starts_with("PANIC ") => run.violation(&format!("C17|{}", &e[6..]), &format!("{} with {}-byte prefix: {}", s.name, len, e), wit()),
+            Err(e) => run.violation("C17|prefixed-file-does-not-load", &format!("{} with {}-byte prefix: {}", s.name, len, e), wit()),
+            Ok(obs) => {
+                for ((what, a), (_, b)) in base.iter().zip(obs.iter()) {
+                    if a != b {
+                        let w = what.split(' ').next().unwrap_or("");
+                        run.violation(&format!("C17|differs|{}", w), &format!("{} ({}) with {}-byte prefix: {}: {} vs {}", s.name, family, len, what, a.chars().take(100).collect::<String>(), b.chars().take(100).collect::<String>()), wit());
+                        break;
+                    }
+                }
+                if base.len() != obs.len() { run.violation("C17|differs|shape", &format!("{}: {} observations vs {}", s.name, base.len(), obs.len()), wit()); }
+            }
+        }
+    });
+}
